@@ -41,9 +41,10 @@ contract('ikesa.IkeSa._verify_rsa_auth_payload', params={'authdata': Bytes, 'dat
 
 contract('ikesa.IkeSa._generate_auth_payload',
          params={'message_data': Bytes, 'nonce': Bytes, 'payload_id': ID, 'sk_p': Bytes}, returns=AUTH,
-         props=['C02'], requires=PRE + ['0 <= payload_id.id_type <= 255'], modifies=[],
+         props=['C02'], requires=PRE, modifies=[],
          raises={'message.AuthenticationFailed': 'self.configuration.my_auth.privkey is None and '
-                                                 '(self.configuration.my_auth.psk is None or len(self.configuration.my_auth.psk) == 0)'},
+                                                 '(self.configuration.my_auth.psk is None or len(self.configuration.my_auth.psk) == 0)',
+                 'struct.error': 'not (0 <= payload_id.id_type <= 255)'},
          ensures={
              'C02:octets-psk': 'implies(self.configuration.my_auth.privkey is None, result.method == 2 and '
                                'result.auth_data == psk_auth(self.my_crypto.prf.hasher, self.configuration.my_auth.psk, '
@@ -56,8 +57,8 @@ contract('ikesa.IkeSa._generate_auth_payload',
 # message | nonce | prf(SK_p, ID body); everything else raises AuthenticationFailed
 contract('ikesa.IkeSa._verify_auth_payload',
          params={'payload_auth': AUTH, 'message_data': Bytes, 'nonce': Bytes, 'payload_id': ID, 'sk_p': Bytes},
-         props=['C02'], requires=PRE + ['0 <= payload_id.id_type <= 255'], modifies=[],
-         raises={'message.AuthenticationFailed': 'True'},
+         props=['C02'], requires=PRE, modifies=[],
+         raises={'message.AuthenticationFailed': 'True', 'struct.error': 'not (0 <= payload_id.id_type <= 255)'},
          ensures={
              'C02:accepts-only-valid':
                  '(payload_auth.method == 2 and self.configuration.peer_auth.psk is not None '
